@@ -46,7 +46,8 @@ EXPECTED_PROBES = ["ndim1", "ndim2", "ndim3", "unset_cell_read", "zero_row_cell"
                    "slice_set_from_vector", "rejected_wrong_columns", "rejected_duplicate_field",
                    "rejected_out_of_range", "copy_independence_checked", "metadata_independence_checked",
                    "set_flattened_identity", "fancy_list_index", "negative_step_slice",
-                   "single_cell_via_slice", "integer_cell_field_op"]
+                   "single_cell_via_slice", "integer_cell_field_op", "negative_int_index",
+                   "numpy_int_index", "cell_with_many_rows", "dim_ge_8", "fields_ge_5"]
 
 OPS = ["set_cell", "get_cell", "slice_get", "slice_set", "field_op", "flatten", "set_flat",
        "add_fields", "remove_fields", "copy_check", "metadata", "second_vector", "rejected",
@@ -79,6 +80,11 @@ def _gen_create(r):
     ndim = r.weighted([(1, 3), (2, 4), (3, 3)])
     shape = [r.pick([1, 2, 3]) for _ in range(ndim)]
     nf = r.pick([1, 2, 3])
+    big = r.fork("big")
+    if big.chance(0.05):       # sizes beyond the usual small ones
+        shape[big.randrange(ndim)] = big.pick([8, 16, 33] if ndim > 1 else [8, 16, 33, 100])
+    if big.chance(0.05):
+        nf = big.pick([5, 8, 9, 17])
     return {"op": "create", "how": "from_data" if (ndim == 1 and r.chance(0.4)) else "from_shape",
             "shape": shape, "nf": nf, "named": r.chance(0.6), "units": r.chance(0.5),
             "fill": r.randrange(10 ** 6), "prefill": r.random()}
@@ -105,7 +111,8 @@ def _gen_index(r):
 def _gen_op(r, kinds):
     k = r.pick(kinds)
     if k in ("set_cell", "get_cell"):
-        return {"op": k, "idx": [r.randrange(100) for _ in range(3)], "rows": r.pick([0, 1, 2, 3]),
+        return {"op": k, "idx": [r.randrange(100) for _ in range(3)],
+                "rows": r.pick([0, 1, 2, 3]) if r.chance(0.96) else r.pick([50, 257, 1000]),
                 "fill": r.randrange(10 ** 6), "via": r.pick(["item", "method"])}
     if k == "slice_get":
         return {"op": k, "index": _gen_index(r), "partial": r.pick([0, 0, 0, 1, 2]),
@@ -194,19 +201,23 @@ def _cell(fill, rows, nf):
     return a
 
 
-def _resolve_index(index, shape, partial):
-    """Raw index spec -> (python index objects, per-dim index lists), never empty."""
+def _resolve_index(index, shape, partial, neg=False):
+    """Raw index spec -> (python index objects, per-dim index lists), never empty.
+    neg: the item path (v[...]) accepts negative positions (get_data/set_data reject them by design);
+    both paths accept NumPy integers."""
     nd = len(shape) - min(partial, len(shape) - 1)
     objs, lists = [], []
     for d in range(nd):
         s, n = index[d], shape[d]
         if s["t"] == "int":
             i = s["i"] % n
-            objs.append(i)
+            o = i - n if (neg and s["i"] % 5 == 0) else i
+            objs.append(np.int64(o) if s["i"] % 7 == 0 else o)
             lists.append([i])
         elif s["t"] == "list":
             ii = [x % n for x in s["ii"]]
-            objs.append(np.asarray(ii) if s.get("as_array") else ii)
+            oo = [x - n if (neg and q_ % 2 == 0 and s["ii"][0] % 3 == 0) else x for q_, x in enumerate(ii)]
+            objs.append(np.asarray(oo) if s.get("as_array") else oo)
             lists.append(ii)
         elif s["t"] == "slice":
             step = s["step"]
@@ -288,6 +299,10 @@ def run(plan):
         fields = [f"f{j}" for j in range(nf)] if op["named"] else None
         units = [f"u{j}" for j in range(nf)] if op["units"] else None
         bump(probes, f"ndim{len(shape)}")
+        if max(shape) >= 8:
+            bump(probes, "dim_ge_8")
+        if nf >= 5:
+            bump(probes, "fields_ge_5")
         g = Rng(op["fill"])
         if op["how"] == "from_data":
             data = []
@@ -423,9 +438,15 @@ def run(plan):
                 a = _cell(op["fill"], op["rows"], m.nf)
                 if op["rows"] == 0:
                     bump(probes, "zero_row_cell")
+                if op["rows"] >= 50:
+                    bump(probes, "cell_with_many_rows")
                 try:
                     if op["via"] == "item":
-                        v[idx if nd > 1 else idx[0]] = a.copy()
+                        oi = tuple((i - s_ if r_ % 5 == 0 else i) if r_ % 3 else np.int64(i)
+                                   for i, s_, r_ in zip(idx, m.shape, op["idx"]))
+                        if any(x < 0 for x in oi):
+                            bump(probes, "negative_int_index")
+                        v[oi if nd > 1 else oi[0]] = a.copy()
                     else:
                         v.set_data(a.copy(), *idx)
                 except Exception as e:
@@ -447,8 +468,12 @@ def run(plan):
                     viol("cell_mismatch", f"get {idx} via {op['via']}", f"cell_mismatch:get_cell:{sigs}")
             elif k == "slice_get":
                 partial = op["partial"] if op["via"] == "item" else 0
-                objs, lists = _resolve_index(op["index"], m.shape, partial)
+                objs, lists = _resolve_index(op["index"], m.shape, partial, neg=op["via"] == "item")
                 want_idx = list(itertools.product(*lists))
+                if any(isinstance(o, (int, np.integer)) and o < 0 for o in objs):
+                    bump(probes, "negative_int_index")
+                if any(isinstance(o, np.integer) for o in objs):
+                    bump(probes, "numpy_int_index")
                 want = [m.cells[i] for i in want_idx]
                 if partial and len(objs) < nd:
                     bump(probes, "slice_get_partial")
@@ -456,7 +481,7 @@ def run(plan):
                     bump(probes, "fancy_list_index")
                 if any(isinstance(o, slice) and (o.step or 1) < 0 for o in objs):
                     bump(probes, "negative_step_slice")
-                all_int = all(isinstance(o, int) for o in objs) and len(objs) == nd
+                all_int = all(isinstance(o, (int, np.integer)) for o in objs) and len(objs) == nd
                 if len(want) == 1 and not all_int:
                     bump(probes, "single_cell_via_slice")
                 try:
@@ -480,7 +505,7 @@ def run(plan):
                              f"slice_get_fields:{sigs}")
             elif k == "slice_set":
                 partial = op["partial"] if op["via"] == "item" else 0
-                objs, lists = _resolve_index(op["index"], m.shape, partial)
+                objs, lists = _resolve_index(op["index"], m.shape, partial, neg=op["via"] == "item")
                 tgt_idx = list(itertools.product(*lists))
                 # repeated targets (list index with duplicates): last writer wins in both
                 vals = fresh_values(op, len(tgt_idx), m.nf)
@@ -495,7 +520,7 @@ def run(plan):
                 else:
                     value = [a.copy() for a in vals]
                 single = len(tgt_idx) == 1
-                all_int = all(isinstance(o, int) for o in objs) and len(objs) == nd
+                all_int = all(isinstance(o, (int, np.integer)) for o in objs) and len(objs) == nd
                 if all_int or (single and not isinstance(value, V) and not any(
                         isinstance(o, slice) for o in objs)):
                     value = vals[0].copy()
@@ -516,6 +541,14 @@ def run(plan):
                     else:
                         _do(value)
                 except Exception as e:
+                    has_neg = any((isinstance(o, (int, np.integer)) and o < 0) or (
+                        isinstance(o, (list, np.ndarray)) and np.any(np.asarray(o) < 0)) for o in objs)
+                    if has_neg and isinstance(e, IndexError):
+                        # the assignment paths reject negative positions explicitly ("out of
+                        # bounds", documented): a legitimate refusal - the state must not have moved
+                        bump(probes, "negative_index_rejected_by_setter")
+                        check_all("slice_set_rejected_negative")
+                        continue
                     viol("slice_set_raised", f"index {objs} via {op['via']} src={src} on shape "
                          f"{m.shape} raised {e!r}", f"slice_set_raised:{op['via']}:{sigs}")
                     check_all("slice_set_raised")
@@ -749,7 +782,7 @@ def run(plan):
                         exp = ValueError
                         objs, lists = _resolve_index(op["index"], m.shape, 0)
                         cnt = len(list(itertools.product(*lists)))
-                        if cnt < 2 or all(isinstance(o, int) for o in objs):
+                        if cnt < 2 or all(isinstance(o, (int, np.integer)) for o in objs):
                             continue
                         vals = [np.zeros((1, m.nf)) for _ in range(cnt)]
                         vals[-1] = np.zeros((1, m.nf + 2))
